@@ -1,6 +1,6 @@
 #!/bin/bash
 # tools/runall.sh [quick|thorough]  — run every claimed check on the unchanged tree (refreshes the evidence files)
-cd /verif
+cd "$(dirname "$0")/.."
 tier=${1:-quick}
 for p in $(python3 -c "import json; print(' '.join(c['property_id'] for c in json.load(open('MANIFEST.json'))['checks']))"); do
   ./check $p $tier > /tmp/runall_$p.log 2>&1; rc=$?
@@ -9,7 +9,7 @@ done
 python3-vt - <<'PY'
 import json,jsonschema,glob
 sch=json.load(open('/root/.vp/EVIDENCE.schema.json'))
-for f in sorted(glob.glob('/verif/evidence/*.json')):
+for f in sorted(glob.glob('evidence/*.json')):
     e=json.load(open(f)); jsonschema.validate(e,sch)
     c=e['coverage']; assert c['obligations']==c['discharged'], (f,c['obligations'],c['discharged'])
 print('evidence files valid; obligations == discharged everywhere')
